@@ -26,7 +26,7 @@ MANIFEST = dict(
     design="7/C19",
     note=("Inputs to UnicodeDammit carry no BOM and no '<' (no in-document declaration), chardet absent: the candidate order is "
           "known, utf-8, windows-1252. Bytes 81 8D 8F 90 9D denote no cp1252 character and are outside the claim (recorded). "
-          "detwingle never converts bytes C2-F4 (taken as UTF-8 lead bytes) and 0xFF has no table entry: both outside 'convertible'."),
+          "detwingle never converts bytes C2-F4 (UTF-8 lead bytes: ambiguous, read as UTF-8); every other byte >= 0x80 that Windows-1252 defines is 'convertible', whatever the library's tables say."),
     technique="Lean 4 proofs (kernel-decided table obligations + induction over character decomposition + loop refinement) with exhaustive/random correspondence and a direct oracle",
 )
 
@@ -93,7 +93,10 @@ def smart_oracle(b: int, enc: str, mode, out):
             if ch is None:
                 return None, "undefined in cp1252 (outside the claim)"
             return out == ch, f"the character itself {ch!r}"
-        want = bytes([b]).decode(enc)
+        try:
+            want = bytes([b]).decode(enc)
+        except UnicodeDecodeError:
+            return None, "undefined in this codec (outside the claim)"
         return out == want, f"the character itself {want!r}"
     if ch is None:
         return None, "undefined in cp1252 (outside the claim)"
@@ -108,8 +111,17 @@ def smart_oracle(b: int, enc: str, mode, out):
 
 
 def convertible_bytes():
-    from bs4.dammit import UnicodeDammit as U
-    return [b for b in sorted(U.WINDOWS_1252_TO_UTF8) if b >= 0x80 and not (U.FIRST_MULTIBYTE_MARKER <= b <= U.LAST_MULTIBYTE_MARKER)]
+    """Fixed by the property and by the two standards it names, NOT by the library's own tables: a byte >= 0x80 that
+    Windows-1252 (CPython's codec) gives a character to and that cannot begin a UTF-8 character (UTF-8 lead bytes are
+    exactly C2..F4; those are ambiguous and are read as UTF-8)."""
+    out = []
+    for b in range(0x80, 0x100):
+        if 0xC2 <= b <= 0xF4:
+            continue
+        if cp1252_char(b) is None:
+            continue
+        out.append(b)
+    return out
 
 
 def is_scalar(c):
